@@ -45,6 +45,7 @@ MIN = {'quick': {'distinct': 250,
                                  ('options continuous', 3),
                                  ('options firstid', 3),
                                  ('options gf-roundtrip', 8),
+                                 ('options gf_terminals-alone', 3),
                                  ('directory of gzip sources', 3)])},
        'thorough': {'distinct': 5000, 'hooks': {'cli.transform': 15000}}}
 
@@ -108,7 +109,8 @@ def encode(fmt, bank, rng, enc, v4=False):
                                      layout=rng.choice(['line', 'pretty']))
     if fmt == 'discobrackets':
         return codec.discobrackets_encode(bank)
-    return codec.tigerxml_encode(bank, None, encoding=enc)
+    return codec.tigerxml_encode(bank, rng if rng.random() < 0.5 else None,
+                                 encoding=enc)
 
 
 def decode(fmt, data, enc, opts):
@@ -461,6 +463,9 @@ def run_opts(ctx, case, rng):
         src = write_src(ctx, 'export', bank, rng, 'utf-8', False, False)
         mid = ctx.path('.brackets')
         dopts = ['gf'] + (['gf_separator:' + sep] if sep != '-' else [])
+        tok = case.get('gf_terminals', False)
+        if tok:
+            dopts.append('gf_terminals')
         rc, err = convert(ctx, src, mid, 'export', 'brackets', dopts=dopts)
         if rc != 0:
             raise Fail('options-exit-status-gf', common.tail(err, 300))
@@ -474,6 +479,15 @@ def run_opts(ctx, case, rng):
             if want != have:
                 raise Fail('option-gf-decoration', 'labels %r, expected %r'
                            % (have[:6], want[:6]))
+            wantt = sorted(t['p'] + (sep + t['e'] if tok and t['e'] != '--'
+                                     else '')
+                           for t in gen.tokens_of(spec['root']))
+            havet = sorted(n['p'] for n in codec._walk(d['root'])
+                           if 'c' not in n)
+            if wantt != havet:
+                raise Fail('option-gf_terminals-decoration',
+                           'token labels %r, expected %r (gf_terminals=%r)'
+                           % (havet[:6], wantt[:6], tok))
         back = ctx.path('.export')
         sopts = ['quiet', 'gf_split'] + (['gf_separator:' + sep]
                                          if sep != '-' else [])
@@ -489,6 +503,23 @@ def run_opts(ctx, case, rng):
             if want != have:
                 raise Fail('option-gf-roundtrip', '(label, edge) %r, '
                            'expected %r' % (have[:6], want[:6]))
+    elif scen == 'gf_terminals-alone':
+        # documented as "if gf is set": alone it must change nothing
+        src = write_src(ctx, 'export', bank, rng, 'utf-8', False, False)
+        outs = []
+        for dopts in ([], ['gf_terminals']):
+            for dfmt in ('brackets', 'export'):
+                dest = ctx.path('.' + dfmt)
+                rc, err = convert(ctx, src, dest, 'export', dfmt, dopts=dopts)
+                if rc != 0:
+                    raise Fail('options-exit-status-gf_terminals',
+                               common.tail(err, 300))
+                outs.append(common.read(dest))
+        if outs[0] != outs[2] or outs[1] != outs[3]:
+            raise Fail('option-gf_terminals-alone-changes-output',
+                       'output with --dest-opts gf_terminals differs from the '
+                       'output without: %r vs %r' % (outs[2][:120],
+                                                     outs[0][:120]))
     ctx.stratum('options ' + scen)
 
 
@@ -559,7 +590,8 @@ def shard(ctx):
 
 
 def draw_opts(rng):
-    scen = rng.choice(['continuous', 'firstid', 'gf-roundtrip', 'gf-roundtrip'])
+    scen = rng.choice(['continuous', 'firstid', 'gf-roundtrip', 'gf-roundtrip',
+                       'gf_terminals-alone'])
     pools = gen.Pools(edges=['HD', 'NK', 'SB', 'OA', '--', '--'], lemma=False)
     k = rng.randint(1, 4)
     sid = rng.choice([3, 10, 77])
@@ -571,6 +603,7 @@ def draw_opts(rng):
         sid += rng.choice([1, 2, 5])
     return {'kind': 'opts', 'scenario': scen, 'bank': bank,
             'firstid': rng.choice([0, 5, 42, 1000]),
+            'gf_terminals': rng.random() < 0.5,
             'sep': rng.choice(['-', '#', '+']), 'senc': 'utf-8',
             'denc': 'utf-8', 'seed': rng.randrange(10 ** 6)}
 
